@@ -226,6 +226,12 @@ def run_case(stream, seed, ctx, params):
             mn, ps = (P.sq_card(rng) if kind == 'sq' else G.elementary(rng, [kind]))
             if mn == 'sq' and P.sq_positive_centre(ps):
                 ps[6] = -abs(ps[6])
+            if rng.random() < 0.08:
+                # an ellipsoid hundreds of metres across written as SQ: coefficients of the order of 1e-9 next to G = -1
+                # (an equation has no scale of its own); probed at its own scale
+                ab = rng.sample([1e-9, 2e-9, 4e-9, 9e-9, 2.5e-9], 3)
+                mn, ps = 'sq', ab + [0.0, 0.0, 0.0, -1.0] + [rng.choice(G.HALF) for _ in range(3)]
+                kind = 'sq'
             facet = None
         else:
             kind = P.MACRO[seed % len(P.MACRO)]
@@ -243,6 +249,8 @@ def run_case(stream, seed, ctx, params):
                 break
         d = P.probe_deck(mn, ps, tr=m, trnum=7, facet=facet)
         d.trs[7] = (m, {'raw': card, 'cls': cls})
+        if facet is None and mn == 'sq' and abs(ps[0]) < 1e-7 and ps[6] == -1.0:
+            d.probe_points = [[c_ * 2.0e4 for c_ in q] for q in G.sample_points(rng, 200)]
         r = run_deck(ctx, stream, d, [], rng, npts=npts, extra_sig={'kind': kind, 'spelling': sp, 'rot': cls},
                      known_classes=_known)
         if r is not None:
